@@ -44,4 +44,18 @@ var props = map[string]Prop{
 			inj("illformed", "internal/targets", "zz_verif_c18_test.go", "", "TestVerifC18IllFormed", 400, 20000, 2, 8),
 		},
 	},
+	"C20": {
+		ID: "C20", Level: "exploration",
+		Rule: "rapid-generated archives in the three formats (tar.gz and zip written with the standard library, tar.xz by piping the tar through xz) with entry names from {plain, nested, ./-prefixed, '..' at any depth, '..' that stays inside, absolute (also naming a watched path), empty/./trailing-slash/doubled-slash, duplicates, file-vs-directory clashes, destination-prefix siblings}, symlink and hard-link entries followed by writes through them (tar), contents 0-64 KiB, with and without explicit parent directories; extracted into root/dest while the whole root (sentinel files, sibling dirs) is snapshotted before and after. Non-trivial: archive with an escaping entry, a link, a clash, a duplicate, a destination-prefix sibling or a missing parent directory; every concurrent-request case. Distinct by hash of (format, entry list).",
+		Assumptions: []string{
+			"an entry 'escapes' when filepath.Join(dest, name) is neither dest nor below it; absolute names are mapped below dest by Join / GNU tar and need no error",
+			"tar.xz is delegated to the system GNU tar 1.34, whose behaviour is part of what is observed",
+			"confinement against a concurrently hostile filesystem is out of scope",
+			"concurrency: goroutines inside one process against a local httptest server; server-side delays are rapid draws but OS scheduling is not controlled",
+		},
+		Jobs: []Job{
+			inj("extract", "internal/crosscompile", "zz_verif_c20_test.go", "llvm14", "TestVerifC20Extract", 1500, 40000, 4, 16),
+			inj("concurrent", "internal/crosscompile", "zz_verif_c20_test.go", "llvm14", "TestVerifC20Concurrent", 60, 1500, 2, 8),
+		},
+	},
 }
